@@ -291,7 +291,7 @@ def s_unit_inj(cb):
     recs = dict(S_RECS)
     recs['S_'] = r'^ffsm2::detail::S_<2,.*,C>$'
     recs['A_'] = r'^ffsm2::detail::A_<Inj1,Inj2,Inj3>$'
-    return dict(id='structure.S_inj.%s' % fn, witness=W, recs=recs, opaque=OPAQUE, props=['C15', 'C18'] + (['C02', 'C03'] if 'Guard' in fn else []) + (['C01', 'C02'] if cb in ('enter', 'reenter', 'exit') else []),
+    return dict(id='structure.S_inj.%s' % fn, witness=W, recs=recs, opaque=OPAQUE, props=['C15', 'C16', 'C18'] + (['C02', 'C03'] if 'Guard' in fn else []) + (['C01', 'C02'] if cb in ('enter', 'reenter', 'exit') else []),
                 target=dict(cls=recs['S_'], name=fn, nparams=2 if ev else 1),
                 consts=S_CONSTS, need_consts=['ArgsT.STATE_COUNT'], ghost=GHOST + ['uint32_t g_ti[16][3]; uint8_t g_sti[16][3];'],
                 calls=S_CALLS, contracts=contracts,
